@@ -55,6 +55,7 @@ type conn struct {
 	outFragQueue *FragQueue // queue of redis messages to be written
 
 	opened     bool             // connection opened event fired
+	closing    bool             // close the connection once the queued replies have been delivered
 	isSlave    bool             // whether redis slave node
 	initStep   int8             // number of steps required for redis connection initialization
 	initStatus InitializeStatus // redis connection initialization status
